@@ -486,12 +486,12 @@ def val(kind, i, si, b):
     return {"StartAt": s, "States": {"I": {"Type": "Pass", "End": True if b else False}}, "Type": s, "Next": s}
 
 
-def leaves_ok(kinds, i, si, b):
+def leaves_ok(kinds, i, si, b, ns=NS):
     """Selectors that the chosen kinds do not use are pinned (no duplicate paths)."""
     uses_s = any(k in (3, 7, 10, 11, 12) for k in kinds)
     uses_i = any(k in (2, 6) for k in kinds)
     uses_b = any(k in (1, 12) for k in kinds)
-    if not (0 <= i < NI and 0 <= si < NS):
+    if not (0 <= i < NI and 0 <= si < ns):
         return False
     if not uses_s and si != 0:
         return False
@@ -507,13 +507,13 @@ _A_OUT = ["JSON values outside the generated shapes: one mutated member (any JSO
           "or the top-level shapes of lint_any_top; string CONTENT is covered symbolically only at the sinks of lint_sym_string"]
 
 
-@condition(timeout={"quick": 180, "thorough": 300}, bounds={"quick": {"K2": "k2 in (0, 3, 9)"}, "thorough": {"K2": "True"}},
+@condition(timeout={"quick": 180, "thorough": 300}, bounds={"quick": {"K2": "k2 in (0, 3)", "NS": 7}, "thorough": {"K2": "True", "NS": 12}},
            functions=["StateLint.validate", "Validator.validate", "NodeValidator.validate_node", "StateNode.check"], outside=_A_OUT)
 def lint_any_top(shape: int, k1: int, k2: int, i: int, si: int, b: bool) -> bool:
     """
     requires: 0 <= shape <= 4 and 0 <= k1 < NK and 0 <= k2 < NK
     requires: (shape in (2, 3) and (@K2@)) or (shape == 4 and k2 < len(TOPKEYS)) or k2 == 0
-    requires: leaves_ok((k1, k2) if shape in (2, 3) else (k1,), i, si, b)
+    requires: leaves_ok((k1, k2) if shape in (2, 3) else (k1,), i, si, b, @NS@)
     ensures: _
     """
     v1 = val(k1, i, si, b)
@@ -579,10 +579,11 @@ def _make_lint_state(tp):
     fields = COMMON + ROLE_FIELDS[tp]
     name = "lint_state_" + tp
 
-    @condition(timeout={"quick": 180, "thorough": 200}, functions=_A_FUNCS, outside=_A_OUT)
+    @condition(timeout={"quick": 180, "thorough": 300}, functions=_A_FUNCS, outside=_A_OUT,
+               bounds={"quick": {"NS": 7}, "thorough": {"NS": 12}})
     def cond(f: int, k: int, i: int, si: int, b: bool) -> bool:
         """
-        requires: 0 <= f < NF and 0 <= k < NK and leaves_ok((k,), i, si, b)
+        requires: 0 <= f < NF and 0 <= k < NK and leaves_ok((k,), i, si, b, @NS@)
         ensures: _
         """
         return natively(lint_total, state_frame(tp, pick(fields, f), val(k, i, si, b)))
@@ -599,10 +600,11 @@ def _make_lint_sub(idx):
     role, fields = SUBROLES[idx]
     name = "lint_sub_" + role
 
-    @condition(timeout={"quick": 180, "thorough": 200}, functions=_A_FUNCS, outside=_A_OUT)
+    @condition(timeout={"quick": 180, "thorough": 300}, functions=_A_FUNCS, outside=_A_OUT,
+               bounds={"quick": {"NS": 7}, "thorough": {"NS": 12}})
     def cond(f: int, k: int, i: int, si: int, b: bool) -> bool:
         """
-        requires: 0 <= f < NF and 0 <= k < NK and leaves_ok((k,), i, si, b)
+        requires: 0 <= f < NF and 0 <= k < NK and leaves_ok((k,), i, si, b, @NS@)
         ensures: _
         """
         return natively(lint_total, sub_frame(role, pick(fields, f), val(k, i, si, b)))
@@ -873,7 +875,7 @@ def agree_targets_catch(kind: int, fails: bool, nc: int, np_: int) -> bool:
 
 
 @condition(timeout={"quick": 180, "thorough": 900}, functions=_B_FUNCS, outside=_B_OUT,
-           bounds={"quick": {"K": "kind == 0 or (not ichoice and nj == 6)"}, "thorough": {"K": "True"}})
+           bounds={"quick": {"K": "(kind == 0 and (not ichoice or nj == 6)) or (not ichoice and nj == 6)"}, "thorough": {"K": "True"}})
 def agree_targets_inner(kind: int, ichoice: bool, isa: int, ni: int, nd: int, nj: int) -> bool:
     """
     requires: 0 <= kind < 3 and 0 <= isa < 6 and 0 <= ni < 7 and 0 <= nd < 7 and 0 <= nj < 7
